@@ -305,3 +305,51 @@ def api_literal_rule(ctx, module_names, rule='API-2', min_sites=0):
     if n < min_sites:
         ctx.error('%s matched %d literal-domain sites, below the minimum %d' % (rule, n, min_sites))
     return n
+
+
+# ---------------------------------------------------------------- state shared by every instance of a class
+
+def check_shared_class_state(ctx, classes, rule='EFF-7'):
+    """A container created in the class body (``cache = {}``) is one object shared by every instance.  When a method fills it, through ``self``, with values
+    computed from the instance's own data, what one object computed is handed to the next: results then depend on which objects were used before.  Reported
+    for each such store; a container that is rebound per instance in __init__, or filled with values that do not read ``self``, is not."""
+    from ..effects import INPLACE_METHODS
+    for mod, cname in classes:
+        ci = ctx.repo.cls(mod, cname)
+        shared = {}
+        for st in ci.node.body:
+            if isinstance(st, ast.Assign) and len(st.targets) == 1 and isinstance(st.targets[0], ast.Name):
+                v = st.value
+                if isinstance(v, (ast.Dict, ast.List, ast.Set)) or (isinstance(v, ast.Call) and (chain(v.func) or '') in ('dict', 'list', 'set', 'collections.defaultdict', 'defaultdict', 'OrderedDict', 'collections.OrderedDict')):
+                    shared[st.targets[0].id] = st
+        n_sites = 0
+        for name, decl in sorted(shared.items()):
+            rebound = False
+            leaks = []
+            for mname, m in ci.methods.items():
+                me = m.params[0] if m.params else None
+                if me is None:
+                    continue
+                def reads_self(e):
+                    return any(isinstance(n, ast.Name) and n.id == me for n in ast.walk(e))
+                for t, v, st in stores(m.node):
+                    if isinstance(t, ast.Attribute) and isinstance(t.value, ast.Name) and t.value.id == me and t.attr == name and mname in ('__init__', '__setstate__'):
+                        rebound = True
+                    if isinstance(t, ast.Subscript) and isinstance(t.value, ast.Attribute) and isinstance(t.value.value, ast.Name) and t.value.value.id == me and t.value.attr == name \
+                            and v is not None and reads_self(v):
+                        leaks.append((m, st))
+                for c in calls(m.node):
+                    f = c.func
+                    if isinstance(f, ast.Attribute) and f.attr in INPLACE_METHODS | {'setdefault', 'add'} and isinstance(f.value, ast.Attribute) and isinstance(f.value.value, ast.Name) \
+                            and f.value.value.id == me and f.value.attr == name and any(reads_self(a) for a in list(c.args) + [k.value for k in c.keywords]):
+                        leaks.append((m, c))
+            if rebound:
+                continue
+            for m, node in leaks:
+                n_sites += 1
+                ctx.violation(rule, '%s.%s is shared by every %s' % (cname, name, cname), where(m, node),
+                              '%s stores a value computed from this object into the container %s created in the class body (line %d): every other %s sees it, so a result depends on the objects used before'
+                              % (up(node)[:70], name, decl.lineno, cname), 'shared-class-state:%s.%s' % (cname, name))
+        if not n_sites:
+            ctx.ok(rule, '%s keeps no instance data in class-level containers' % cname, where(next(iter(ci.methods.values()))) if ci.methods else ci.module.path,
+                   'class-level containers: %s; none is filled through self with values computed from the instance' % (sorted(shared) or 'none'))
